@@ -3,6 +3,8 @@ CONSTANTS
   F <- F_noquestion
   PreSet <- AllPre
   KindSet <- AllKinds
+  Deep = FALSE
+  RaceSet <- NoRace
 INIT Init
 NEXT Next
 INVARIANTS NoForeignCached
